@@ -1,5 +1,5 @@
 (* C18 — xsd_check=False switches off structural checking and nothing else. *)
-From MX Require Import Model.Unchecked.
+From MX Require Import Model.Unchecked Gen.Code Model.Gating.
 From Coq Require Import List Bool Arith.
 Import ListNotations.
 Theorem C18_never_structural : forall s o, snd (ustep s o) = UNoSuchChild -> exists k, (o = URemove k \/ o = UReplace k) /\ length (fst s) <= k.
@@ -17,6 +17,17 @@ Print Assumptions C18_unchecked_root.
 Theorem C18_checked_root : forall ok k, to_string_ok (ENode true ok k) = true <-> (forall c o, In (c, o) (nodes (ENode true ok k)) -> c = true -> o = true).
 Proof. exact to_string_checked. Qed.
 Print Assumptions C18_checked_root.
+(* the gating as the SOURCE has it (shape of _final_checks and to_string read by the translator on every run) is the specification:
+   so the three theorems above are statements about the code's own gating function *)
+Theorem C18_gating_source : tr_gating_ok = true /\ final_checks_shape = GuardOwnThenRecurse /\ to_string_guarded = true.
+Proof. repeat split; reflexivity. Qed.
+Theorem C18_gating_of_source : forall t, final_checks_of final_checks_shape t = final_checks t /\ to_string_of final_checks_shape to_string_guarded t = to_string_ok t.
+Proof. intros t. destruct C18_gating_source as (_ & -> & ->). split; [apply guard_own_then_recurse_is_spec|apply to_string_guarded_is_spec]. Qed.
+Print Assumptions C18_gating_of_source.
+Theorem C18_checked_root_source : forall ok k, to_string_of final_checks_shape to_string_guarded (ENode true ok k) = true <->
+  (forall c o, In (c, o) (nodes (ENode true ok k)) -> c = true -> o = true).
+Proof. intros ok k. rewrite (proj2 (C18_gating_of_source _)). apply to_string_checked. Qed.
+Print Assumptions C18_checked_root_source.
 (* non-vacuity: a checked incomplete node below an unchecked one makes the checked root refuse, the unchecked root not *)
 Example C18_example :
   to_string_ok (ENode true true [ENode false false [ENode true false []]]) = false /\
